@@ -121,7 +121,8 @@ theorem size_matches_calculate (P : Params) (hP : P.Wf) (sch : Schema) (L : LRow
   rw [drop_encode P hP sch L]
   exact calcNewTupleSize_eq P hP sch L m t hme
 
-/-- `Tuple::delete` on the bytes is the logical delete (first deleter wins). -/
+/-- `Tuple::delete` on the bytes is the logical delete: the single delete mark names the new deleter, an existing mark
+    is overwritten (the code since c92877b; whether that is right is C03/C04's `deleteMarkSingleSlot`). -/
 theorem delete_refines (P : Params) (hP : P.Wf) (sch : Schema) (L : LRow) (h : WfRow P sch L) (t : Nat) :
     delete P (encode P sch L) t = .ok (encode P sch (L.delete t)) :=
   delete_encode P hP sch L h t
